@@ -85,7 +85,7 @@ func main() {
 	bad := 0
 	ops := 0
 	for hi, h := range hs {
-		for _, kind := range []string{"x25519", "scrypt", "ssh-ed25519", "ssh-ed25519-fresh-recipient", "ssh-rsa"} {
+		for _, kind := range []string{"x25519", "scrypt", "ssh-ed25519", "ssh-ed25519-fresh-recipient", "ssh-rsa", "ssh-rsa-from-components"} {
 			size := []int{0, 100, 70000, 140000}[(hi+len(kind))%4]
 			s, err := conc.NewShared(kind, size)
 			if err != nil {
